@@ -308,7 +308,7 @@ def r6(c):
                 if nm in writers and q.sem_is_name(bb, q.sem(bb, {'l': pl['l'], 'p': pl['p'][:-1]}), 'self'):
                     writers[nm].add(P.logical_name(bb))
     c.ob('end-writers', writers['end'] <= {RB + '::read_some', RB + '::clear'} and RB + '::read_some' in writers['end'], 'only read_some (and clear) assign `end`', str(sorted(writers['end'])))
-    c.ob('begin-writers', writers['begin'] <= {RB + '::read_some', RB + '::read', RB + '::read_u8', RB + '::clear'} and {RB + '::read', RB + '::read_u8'} <= writers['begin'],
+    c.ob('begin-writers', writers['begin'] <= {RB + '::read_some', RB + '::read', RB + '::read_u8', RB + '::clear'} and RB + '::read' in writers['begin'],
          'only read / read_u8 advance `begin` (read_some rebases it, clear zeroes it)', str(sorted(writers['begin'])))
     if P.has(RB + '::clear'):
         cb = P.fn(RB + '::clear')
@@ -366,13 +366,50 @@ def r6(c):
     sl = q.sem(b, rd.args[1])
     cl = q.closure_names(b, rd.args[1])
     c.ob('read/into-free-space', 'self' in cl, 'the physical read fills self.buffer[end..]', str(sorted(cl)), rd.loc())
-    # accessors: checked against the unread length
+    # the unread length is end - begin; empty means begin == end
+    def fld(bb, o, name):
+        s_ = q.sem(bb, o)
+        return q.sem_is_name(bb, s_, 'self') and bool(s_.proj) and s_.proj[-1].endswith(':' + name)
+    def is_len(bb, o):
+        s_ = q.sem(bb, o)
+        if s_.kind == 'call' and s_.cs.is_(RB + '::len') and not s_.proj:
+            return q.is_name(bb, s_.cs.args[0], 'self')
+        return s_.kind == 'bin' and s_.extra[1] in ('Sub', 'SubWithOverflow') and fld(bb, s_.extra[2], 'end') and fld(bb, s_.extra[3], 'begin')
+    lb = P.fn(RB + '::len')
+    xs = q.exits(lb)
+    c.ob('len', len(xs) == 1 and xs[0]['kind'] == 'copy' and is_len(lb, xs[0]['op']), 'len() = end - begin', str([x['kind'] for x in xs]), loc_of(lb))
+    eb = P.fn(RB + '::is_empty')
+    xs = q.exits(eb)
+    oke = len(xs) == 1 and xs[0]['kind'] == 'other' and xs[0]['rv']['r'] == 'bin' and xs[0]['rv']['op'] == 'Eq'
+    if oke:
+        a0, a1 = xs[0]['rv']['a']
+        oke = (fld(eb, a0, 'begin') and fld(eb, a1, 'end')) or (fld(eb, a0, 'end') and fld(eb, a1, 'begin')) or (is_len(eb, a0) and q.const_val(eb, a1) == 0) or (is_len(eb, a1) and q.const_val(eb, a0) == 0)
+    c.ob('is_empty', oke, 'is_empty() = (begin == end)', str([x['kind'] for x in xs]), loc_of(eb))
+    # accessors: checked against the unread length, and what is handed out is consumed
+    import inline
     for fnm, n in (('read', 'count'), ('read_u8', None)):
-        fb = P.fn(RB + '::' + fnm)
+        fb = inline.expand(P, P.fn(RB + '::' + fnm), {RB + '::read'} if fnm != 'read' else set())
         xs = [x for x in q.exits(fb) if x['kind'] == 'agg' and x['variant'] == 'Ok']
         get = [cs for cs in fb.calls() if cs.callee.endswith('::get')]
-        ok = len(get) == 1 and bool(xs) and all(q.dominated_by_any(fb, q.outcomes(fb, get[0]).get('Some', []), x['node']) for x in xs)
-        c.ob('accessor/%s' % fnm, ok, 'ReadBuffer::%s returns data only through a checked slice::get' % fnm, '', loc_of(fb))
+        se = q.outcomes(fb, get[0]).get('success', []) if len(get) == 1 else []
+        ok = len(get) == 1 and bool(xs) and bool(se) and all(q.dominated_by_any(fb, se, x['node']) for x in xs)
+        c.ob('accessor/%s' % fnm, ok, 'ReadBuffer::%s returns data only through a checked slice::get' % fnm, '%d get, %d Ok exits' % (len(get), len(xs)), loc_of(fb))
+        # ... and refused only when there are not that many unread bytes (a request for 0 bytes of an empty buffer succeeds)
+        cf = q.cmp_facts(fb)
+        gfail = q.outcomes(fb, get[0]).get('failure', []) if len(get) == 1 else []
+        emp = [e for cs in fb.calls(RB + '::is_empty') if q.is_name(fb, cs.args[0], 'self') for e in q.bool_edges(fb, cs)['true']] if fnm == 'read_u8' else []
+        def wanted(o):
+            return q.is_name(fb, o, n) if n else q.const_val(fb, o) == 1
+        just = set(gfail + emp + [e for (e, r_, a_, b_) in cf if r_ == 'lt' and is_len(fb, a_) and wanted(b_)])
+        if fnm == 'read_u8':
+            just |= set(se)        # an arm behind the successful one-byte read (a slice pattern that cannot fail)
+        free = fb.reach_set(fb.entry, avoid=just) | {fb.entry}
+        bad = [x['node'] for x in q.exits(fb) if q.exit_is_failure(fb, x) and x['node'] in free]
+        c.ob('accessor/%s/refuses-only-short' % fnm, not bad, 'ReadBuffer::%s fails only when fewer bytes are unread than asked for (len() < %s) or the checked get fails' % (fnm, n or '1'),
+             'error exits not behind that comparison: %s' % bad, loc_of(fb))
+        adv = [i for i, s_ in fb.assigns() if s_['pl']['p'] and s_['pl']['p'][-1].startswith('field:') and s_['pl']['p'][-1].split(':', 2)[2] == 'begin']
+        oka = bool(adv) and bool(xs) and all(any(fb.reaches(('b', i), x['node']) or ('b', i) == x['node'] for i in adv) for x in xs)
+        c.ob('accessor/%s/consumes' % fnm, oka, 'every successful ReadBuffer::%s advances `begin` (bytes handed out are not handed out again)' % fnm, '%d stores to begin' % len(adv), loc_of(fb))
 
 
 FR_RESET = 'rodbus::common::frame::FramedReader::reset'
